@@ -97,7 +97,7 @@ fn ending_client(c: usize, s: usize, descr: &mut Vec<String>) -> Client {
         meta: None,
     };
     let ok = |code: u16| Plan { on_pending: OnPending::GetBody(1_000_000), on_ready: OnReady::Respond, resp: RespSpec { code, body_len: 4, body_seed: 1, ctype: 1, headers: vec![] } };
-    let ending = gen::below(11);
+    let ending = gen::below(12);
     let mut ops = vec![Op::Connect];
     let name;
     match ending {
@@ -207,6 +207,19 @@ fn ending_client(c: usize, s: usize, descr: &mut Vec<String>) -> Client {
             ops.push(Op::AwaitBytes(1 + gen::below(3000) as usize));
             ops.push(if gen::ratio(1, 2) { Op::Rst } else { Op::Close });
         }
+        10 => {
+            // the handler answers with an event stream and the application keeps the sender:
+            // the connection stays in service (and keeps its slot) for as long as it streams
+            name = "event stream kept open by the application until the end of the run";
+            let mut p = ok(200);
+            p.on_ready = OnReady::EventStream;
+            let r = mk(ReqKind::NoBody, p, "GET");
+            handler::set_plan(&r.path, r.plan.clone());
+            ops.push(Op::Send(r.head()));
+            ops.push(Op::AwaitFinal(1));
+            ops.push(Op::Fin);
+            gen::count("probe.event_stream_holds_a_slot");
+        }
         _ => {
             name = "connect and close without sending";
             ops.push(Op::Pause(1 + gen::below(5)));
@@ -296,6 +309,19 @@ fn server_level(cfg: &RunCfg) -> Outcome {
     if let Some(mut v) = eng.run(&mut ex) {
         v.detail = format!("{} ; history: {descr:?}", v.detail);
         return Outcome { violation: Some(v), nontrivial: true, ..Default::default() };
+    }
+    // the application lets go of its event-stream senders: the streams end, their slots
+    // come back, clients that had to wait are served
+    // (a client that had to wait may start a stream of its own: repeat)
+    for _ in 0..16 {
+        if handler::HANDLER.with(|h| h.borrow().senders.is_empty()) {
+            break;
+        }
+        handler::HANDLER.with(|h| h.borrow_mut().senders.clear());
+        if let Some(mut v) = eng.run(&mut ex) {
+            v.detail = format!("{} ; history: {descr:?}", v.detail);
+            return Outcome { violation: Some(v), nontrivial: true, ..Default::default() };
+        }
     }
     if eng.hit_cap {
         return Outcome::fail("C12.terminates", format!("never quiesces; history: {descr:?}"));
@@ -498,13 +524,13 @@ pub fn spec() -> PropertySpec {
     PropertySpec {
         id: "C12",
         level: "exploration",
-        rule: "Server level: max_conns 1-4, 2-3x as many simulated clients whose connections end in every listed way (normal close, handler 4xx/5xx, handler panic, dropped by the handler, malformed request, RST / FIN mid-head, abort mid-body, abort mid-upload, abort while the response is written, connect-and-close; after a server-ended connection half of the clients stay connected and silent for ever) in tape-chosen orders and overlaps with handlers held 'running' for tape-chosen spans; accept failures injected by the simulated listener (EMFILE bursts: the connection stays in the backlog; ECONNABORTED: it is gone; a dozen other transient errnos - ENFILE, ENOBUFS, ENOMEM stay in the backlog, EPROTO, ENETDOWN, EHOSTUNREACH, ... are gone), each followed in the real code by a 500 ms virtual sleep, in a share of the runs with a stopped global logger installed (accept failures are logged); task cancellation. Per-step invariant: connections being serviced <= max_conns and handler invocations in flight <= max_conns. Conservation by quiescence: after the history, max_conns+1 fresh connections with held handlers - exactly max_conns must reach their handler, then all are served once handlers are released. API level: EVERY TokenSet/Token sequence to depth 6 (quick) / 8 (thorough) for pool sizes 1-4, plus sampled sequences of depth 8-12, over {async take (cancelled when it would block), timed take, drop i-th} against a counter model. distinct = schedule hash / op sequence.",
+        rule: "Server level: max_conns 1-4, 2-3x as many simulated clients whose connections end in every listed way (normal close, handler 4xx/5xx, handler panic, dropped by the handler, malformed request, RST / FIN mid-head, abort mid-body, abort mid-upload, abort while the response is written, connect-and-close, an event stream that the application keeps open (it holds its slot until the senders are dropped just before the conservation probe); after a server-ended connection half of the clients stay connected and silent for ever) in tape-chosen orders and overlaps with handlers held 'running' for tape-chosen spans; accept failures injected by the simulated listener (EMFILE bursts: the connection stays in the backlog; ECONNABORTED: it is gone; a dozen other transient errnos - ENFILE, ENOBUFS, ENOMEM stay in the backlog, EPROTO, ENETDOWN, EHOSTUNREACH, ... are gone), each followed in the real code by a 500 ms virtual sleep, in a share of the runs with a stopped global logger installed (accept failures are logged); task cancellation. Per-step invariant: connections being serviced <= max_conns and handler invocations in flight <= max_conns. Conservation by quiescence: after the history, max_conns+1 fresh connections with held handlers - exactly max_conns must reach their handler, then all are served once handlers are released. API level: EVERY TokenSet/Token sequence to depth 6 (quick) / 8 (thorough) for pool sizes 1-4, plus sampled sequences of depth 8-12, over {async take (cancelled when it would block), timed take, drop i-th} against a counter model. distinct = schedule hash / op sequence.",
         scenarios: vec![
             Scenario { name: "c12.server", property: "C12", func: server_level, runs_quick: 300_000, runs_thorough: 8_000_000, doc: "server level" },
             Scenario { name: "c12.token_api_enum", property: "C12", func: token_api_enum, runs_quick: 4 * 46_656, runs_thorough: 4 * 1_679_616, doc: "every slot-pool op sequence to depth 6 (quick) / 8 (thorough)" },
             Scenario { name: "c12.token_api", property: "C12", func: token_api, runs_quick: 300_000, runs_thorough: 5_000_000, doc: "slot pool API vs counter model" },
         ],
-        required_probes: vec!["probe.accept_failure_with_stopped_logger", "probe.limit_reached", "fault.accept_emfile", "fault.accept_aborted", "fault.accept_other_errno", "probe.client_lingers_after_server_ended", "probe.accept_failed_then_probe_passed", "fault.client_rst", "job.panicked", "timer.sleep_for"],
+        required_probes: vec!["probe.accept_failure_with_stopped_logger", "probe.limit_reached", "fault.accept_emfile", "fault.accept_aborted", "fault.accept_other_errno", "probe.client_lingers_after_server_ended", "probe.event_stream_holds_a_slot", "probe.accept_failed_then_probe_passed", "fault.client_rst", "job.panicked", "timer.sleep_for"],
         components: components_server(),
         assumptions: vec!["the kernel accept backlog is an unbounded queue in the simulated listener", "unbounded blocking pool: a held handler never starves another"],
     }
